@@ -84,7 +84,9 @@ nested segments (`layoutStartsB_of_mixed`, the NestedDomain), per segment when t
 file space (`segStartLeB_of_occ`), and for ANY nesting (also partial) from layoutNW and the static condition `HeadOk`
 (Bool form `headOkB`): every segment has < 2^16 members and its first member is neither SHT_NULL-typed nor section 0
 (`layoutStartsB_of_static`, invariant `GenLe`: under layoutNW every generated proper section starts at or below the
-cursor; `save_twice_runs_static'`).  Restated theorems: `save_twice_runs'` (ResaveOkC + layoutNW + layoutStartsB),
+cursor; `save_twice_runs_static'`).  `save_twice_runs_small'` (Props/C06Small.lean): layoutNW itself replaced by the
+closed-form bounds `SmallObject o` (families/c04.py) - the no-wrap hypotheses of the second-save theorem are then plain
+bounds plus HeadOk.  Restated theorems: `save_twice_runs'` (ResaveOkC + layoutNW + layoutStartsB),
 `save_twice_runs_flat'` (ResaveOkC + layoutNW + layoutDomB), `Compose.save_load_save_flat'` (`ResaveDomainC` =
 ResaveDomain with ResaveOkC), `Compose.save_load_save_nested_input'` (NestedDomain + ResaveOkC); `stepNoWrap_of_layoutNW`
 shows the derived fact at a member.  Non-vacuity: exObj32, exTwoM, exNestedM.
@@ -175,6 +177,7 @@ THEOREMS = ["ElfioVerif.C06.save_twice_witness",
             "ElfioVerif.C06.segStartLeB_of_genLe",
             "ElfioVerif.C06.layoutStartsB_of_static",
             "ElfioVerif.C06.save_twice_runs_static'",
+            "ElfioVerif.C06.save_twice_runs_small'",
             "ElfioVerif.C06.resaveOkR_of_layoutNW",
             "ElfioVerif.C06.stepNoWrap_of_layoutNW",
             "ElfioVerif.C06.save_twice_runs'",
@@ -183,7 +186,7 @@ THEOREMS = ["ElfioVerif.C06.save_twice_witness",
             "ElfioVerif.Compose.save_load_save_flat'",
             "ElfioVerif.Compose.save_load_save_nested_input'"]
 EXTRA_IMPORTS = ["ElfioVerif.Props.Compose", "ElfioVerif.Props.C06Runs", "ElfioVerif.Props.Compose2",
-                 "ElfioVerif.Props.C06Rest"]
+                 "ElfioVerif.Props.C06Rest", "ElfioVerif.Props.C06Small"]
 SITES = ["save_", "lsws", "lst_", "lseg", "wsd"]
 RULE = ("writer-domain programs x 4 configurations: save, save again, reload (eager or lazy), save; plus "
         "well-formed bundled examples: load, save, reload, save; non-trivial = first save succeeded and the "
